@@ -145,7 +145,7 @@ func checkC01(p *Prog, r *Report) {
 	}
 	r.Stat("valuations", nVals)
 	r.Stat("path classes", nClasses)
-	r.Floor("R3", "path classes", nClasses, 300)
+	r.Floor("R3", "path classes", nClasses, 100)
 	// side conditions
 	if len(incomplete) > 0 {
 		r.Undecided("R3s", "enumeration", "", strings.Join(uniqStrings(incomplete), "; "))
@@ -170,7 +170,7 @@ func checkC01(p *Prog, r *Report) {
 		r.Pass("R3s", "loops", "", "no result or reply is sent inside a loop")
 	}
 	r.Stat("functions on inbound paths", len(fnsSeen))
-	r.Floor("R3s", "functions on inbound paths", len(fnsSeen), 25)
+	r.Floor("R3s", "functions on inbound paths", len(fnsSeen), 10)
 	classifierWriterRule(p, r, "R3s")
 
 	c01Builders(p, ib, r)
@@ -405,8 +405,8 @@ func c01CallSites(p *Prog, ib *inbound, r *Report) {
 			r.Check("R5", fmt.Sprintf("%s#%d", base, nRes+nRep), hdrOK && addrOK, pos, fmt.Sprintf("header from %v; sender address %s", hs, addr))
 		})
 	}
-	r.Floor("R5", "result call sites", nRes, 10)
-	r.Floor("R5", "reply call sites", nRep, 6)
+	r.Floor("R5", "result call sites", nRes, 4)
+	r.Floor("R5", "reply call sites", nRep, 3)
 }
 
 // ---- R6: who may send ----
